@@ -19,7 +19,9 @@ from typing import Any, Callable, Iterable
 from .boot import REPO, VERIF, boot
 
 LEAN_DIR = os.path.join(VERIF, "lean")
-EVID_DIR = os.path.join(VERIF, "evidence")
+# evidence for the registered checks is only ever written from runs against /repo itself; runs against a
+# scratch tree (VERIF_REPO=..., mutant testing) go to evidence/scratch (git-ignored)
+EVID_DIR = os.path.join(VERIF, "evidence") if os.path.realpath(REPO) == "/repo" else os.path.join(VERIF, "evidence", "scratch")
 REPLAY_DIR = os.path.join(EVID_DIR, "replays")
 DRIVER_BIN = os.path.join(LEAN_DIR, ".lake", "build", "bin", "wfdriver")
 ALLOWED_AXIOMS = {"propext", "Classical.choice", "Quot.sound"}
